@@ -1,5 +1,5 @@
 (** C14 - max-fails: exceeding the limit aborts the rest of the job for good. *)
-From HQ Require Import Base.Prelude Cluster.Types Cluster.Core Cluster.Reactor Cluster.Worker Cluster.Server Cluster.Sys Cluster.Monitors Cluster.ProofsJob Cluster.ProofsCore Cluster.ProofsMore.
+From HQ Require Import Base.Prelude Cluster.Types Cluster.Core Cluster.Reactor Cluster.Worker Cluster.Server Cluster.Sys Cluster.Monitors Cluster.ProofsJob Cluster.ProofsCore Cluster.ProofsMore Cluster.ProofsTerminal Cluster.ProofsStep Cluster.ProofsAll.
 From Coq Require Import ZArith.
 Local Open Scope N_scope.
 
@@ -10,4 +10,12 @@ Theorem C14_abort_only_over_limit : forall s t aborted k s' ids,
   exists j mf, find_job (h_jobs (hq_of s')) (fst t) = Some j /\ j_maxfails j = Some mf /\ mf < j_nfail j.
 Proof. exact max_fails_rule. Qed.
 
+(** ... and when it does, EVERY task of the job that had no outcome is aborted: the job is left
+    with no waiting and no running task. *)
+Theorem C14_exceed_aborts_all : forall s t aborted k s' ids,
+  HOK (hq_of s) -> process_task_failed s t aborted k = Ok (s', ids) -> ids <> [] ->
+  exists j', find_job (h_jobs (hq_of s')) (fst t) = Some j' /\ cnt (j_tasks j') JW + cnt (j_tasks j') JR = 0.
+Proof. exact exceed_aborts_all. Qed.
+
 Print Assumptions C14_abort_only_over_limit.
+Print Assumptions C14_exceed_aborts_all.
